@@ -890,6 +890,27 @@ fn respond(line: &str) -> R {
             }
             Ok(join(vec![blocks_ser, grouping, node("Expansion", "", generated)]))
         }
+        // serialize a world (ground impls of dispatch traits) and ground queries
+        ["world", world, probes] => {
+            let file = parse::<syn::File>(world)?;
+            let impls = file
+                .items
+                .iter()
+                .map(|item| match item {
+                    syn::Item::Impl(item) => ser_item_impl(item),
+                    _ => Err("world item kind".into()),
+                })
+                .collect::<Result<Vec<_>, String>>()?;
+            let queries = probes
+                .split(';')
+                .filter(|probe| !probe.trim().is_empty())
+                .map(|probe| {
+                    let (trait_, self_ty) = probe.split_once(" for ").ok_or("bad probe")?;
+                    ser_group_id(&parse_group_id(trait_.trim(), self_ty.trim())?)
+                })
+                .collect::<Result<Vec<_>, String>>()?;
+            Ok(join(vec![node("World", "", impls), node("Queries", "", queries)]))
+        }
         _ => Err(format!("unknown request: {line}")),
     }
 }
